@@ -151,23 +151,43 @@ impl Ctx {
 }
 
 static QUIET: std::sync::atomic::AtomicBool = std::sync::atomic::AtomicBool::new(false);
+static LAST_PANIC: std::sync::Mutex<String> = std::sync::Mutex::new(String::new());
 
-/// Panics inside `guarded` are observations and stay silent; any other panic is a bug of the
-/// harness and is printed as usual.
+/// Crate-relative source location of a panic (`rpki-0.19.2/src/…`, `krill/src/…`).
+fn short_location(file: &str, line: u32) -> String {
+    let f = if let Some(i) = file.find("/registry/src/") {
+        let rest = &file[i + "/registry/src/".len()..];
+        rest.split_once('/').map(|x| x.1).unwrap_or(rest).to_string()
+    } else if let Some(rest) = file.strip_prefix("/repo/") {
+        format!("krill/{rest}")
+    } else if let Some(i) = file.find("/library/") {
+        format!("std{}", &file[i + "/library".len()..])
+    } else {
+        file.to_string()
+    };
+    format!("{f}:{line}")
+}
+
+/// Panics inside `guarded` are observations: they stay silent and their location is kept.
+/// Any other panic is a bug of the harness and is printed as usual.
 pub fn quiet_panics() {
     let default = std::panic::take_hook();
     std::panic::set_hook(Box::new(move |info| {
-        if !QUIET.load(std::sync::atomic::Ordering::SeqCst) {
+        if QUIET.load(std::sync::atomic::Ordering::SeqCst) {
+            let loc = info.location().map(|l| short_location(l.file(), l.line())).unwrap_or("?".into());
+            *LAST_PANIC.lock().unwrap() = loc;
+        } else {
             default(info)
         }
     }));
 }
 
-fn guarded<T>(f: impl FnOnce() -> T) -> Option<T> {
+/// `Err(location)` if `f` panicked.
+fn guarded<T>(f: impl FnOnce() -> T) -> Result<T, String> {
     QUIET.store(true, std::sync::atomic::Ordering::SeqCst);
-    let r = catch_unwind(AssertUnwindSafe(f)).ok();
+    let r = catch_unwind(AssertUnwindSafe(f));
     QUIET.store(false, std::sync::atomic::Ordering::SeqCst);
-    r
+    r.map_err(|_| LAST_PANIC.lock().unwrap().clone())
 }
 
 //------------------------------------------------------------------ C05: ROA deltas
@@ -208,8 +228,8 @@ fn op_roa(ctx: &Ctx, w: &[&str]) -> Option<String> {
     let h = tok::res_blocks(&res);
     let out = guarded(|| ca_pure::routes_process_updates(&routes, &ctx.handle, &res, &updates));
     Some(match out {
-        None => format!("H={h} panic"),
-        Some(Ok((new_routes, evs))) => {
+        Err(loc) => format!("H={h} panic {loc}"),
+        Ok(Ok((new_routes, evs))) => {
             // what the events do to the configuration of a real CertAuth
             let mut ca = ctx.ca(&res);
             for c in &state {
@@ -230,7 +250,7 @@ fn op_roa(ctx: &Ctx, w: &[&str]) -> Option<String> {
                 tok::sorted_list(&applied, tok::conf, ","),
             )
         }
-        Some(Err(Error::RoaDeltaError(_, delta))) => {
+        Ok(Err(Error::RoaDeltaError(_, delta))) => {
             let v = serde_json::to_value(&delta).ok()?;
             let confs = |k: &str| -> Option<String> {
                 let l: Vec<RoaConfiguration> = serde_json::from_value(v.get(k)?.clone()).ok()?;
@@ -245,7 +265,7 @@ fn op_roa(ctx: &Ctx, w: &[&str]) -> Option<String> {
                 confs("invalid_length")?
             )
         }
-        Some(Err(_)) => format!("H={h} err other"),
+        Ok(Err(_)) => format!("H={h} err other"),
     })
 }
 
@@ -296,8 +316,8 @@ fn op_aspa(ctx: &Ctx, w: &[&str]) -> Option<String> {
     let h = tok::res_blocks(&res);
     let out = guarded(|| ca_pure::aspas_process_updates(&defs, &ctx.handle, &res, updates));
     Some(match out {
-        None => format!("H={h} panic"),
-        Some(Ok((all, evs))) => {
+        Err(loc) => format!("H={h} panic {loc}"),
+        Ok(Ok((all, evs))) => {
             let mut ca = ca_with_aspas(ctx, &res, &state);
             for e in &evs {
                 ca.verif_apply(e.clone());
@@ -309,7 +329,7 @@ fn op_aspa(ctx: &Ctx, w: &[&str]) -> Option<String> {
                 tok::sorted_list(&ca_pure::aspas_dump(ca.verif_aspas()), tok::aspa_def, ","),
             )
         }
-        Some(Err(e)) => format!("H={h} err {}", aspa_err(&e)),
+        Ok(Err(e)) => format!("H={h} err {}", aspa_err(&e)),
     })
 }
 
@@ -323,8 +343,8 @@ fn op_aspax(ctx: &Ctx, w: &[&str]) -> Option<String> {
     let h = tok::res_blocks(&res);
     let out = guarded(|| ca.verif_updated_allowed_and_needed(customer, &update));
     Some(match out {
-        None => format!("H={h} panic"),
-        Some(Ok(needed)) => {
+        Err(loc) => format!("H={h} panic {loc}"),
+        Ok(Ok(needed)) => {
             if needed {
                 ca.verif_apply(CertAuthEvent::AspaConfigUpdated { customer, update });
             }
@@ -334,7 +354,7 @@ fn op_aspax(ctx: &Ctx, w: &[&str]) -> Option<String> {
                 tok::sorted_list(&ca_pure::aspas_dump(ca.verif_aspas()), tok::aspa_def, ",")
             )
         }
-        Some(Err(e)) => format!("H={h} err {}", aspa_err(&e)),
+        Ok(Err(e)) => format!("H={h} err {}", aspa_err(&e)),
     })
 }
 
@@ -403,8 +423,8 @@ fn op_bgpsec(ctx: &Ctx, w: &[&str]) -> Option<String> {
         .join(",");
     let out = guarded(|| ca_pure::bgpsec_process_updates(&defs, &ctx.handle, &res, updates));
     Some(match out {
-        None => format!("H={h} P={pool} panic"),
-        Some(Ok((all, evs))) => {
+        Err(loc) => format!("H={h} P={pool} panic {loc}"),
+        Ok(Ok((all, evs))) => {
             let mut st: Vec<String> = ca_pure::bgpsec_dump(&all)
                 .iter()
                 .map(|(k, c)| format!("{}.{}", key_tok(ctx, k), csr_tok(ctx, c)))
@@ -429,7 +449,7 @@ fn op_bgpsec(ctx: &Ctx, w: &[&str]) -> Option<String> {
                 if ev.is_empty() { "-".into() } else { ev.join(",") }
             )
         }
-        Some(Err(e)) => match e {
+        Ok(Err(e)) => match e {
             Error::BgpSecDefinitionUnknown(_, k) => format!("H={h} P={pool} err unknown {}", key_tok(ctx, &k)),
             Error::BgpSecDefinitionInvalidlySigned(_, d, _) => format!(
                 "H={h} P={pool} err badsig {}",
@@ -524,9 +544,9 @@ fn op_child(ctx: &Ctx, kind: &str, w: &[&str]) -> Option<String> {
         _ => ca.verif_process_child_update_id_cert(&name, ctx.id_info(id)),
     });
     Some(match out {
-        None => format!("{head} panic"),
-        Some(Ok(evs)) => format!("{head} ok E={}", child_events(ctx, &evs)),
-        Some(Err(e)) => format!("{head} err {}", child_err(&e)),
+        Err(loc) => format!("{head} panic {loc}"),
+        Ok(Ok(evs)) => format!("{head} ok E={}", child_events(ctx, &evs)),
+        Ok(Err(e)) => format!("{head} err {}", child_err(&e)),
     })
 }
 
@@ -541,8 +561,8 @@ fn op_mlv(w: &[&str]) -> Option<String> {
         (p.max_length_valid(), p.effective_max_length(), p.into_explicit_max_length(), c.payload)
     });
     Some(match out {
-        None => "panic".into(),
-        Some((v, e, x, x2)) => {
+        Err(loc) => format!("panic {loc}"),
+        Ok((v, e, x, x2)) => {
             format!("valid={} eff={} exp={} exp2={}", v as u8, e, tok::payload(&x), tok::payload(&x2))
         }
     })
@@ -552,8 +572,8 @@ fn op_mlv(w: &[&str]) -> Option<String> {
 fn op_nsp(w: &[&str]) -> Option<String> {
     let p = tok::parse_payload(w.get(1)?)?;
     Some(match guarded(|| p.nr_of_specific_prefixes()) {
-        None => "panic".into(),
-        Some(n) => format!("some {n}"),
+        Err(loc) => format!("panic {loc}"),
+        Ok(n) => format!("some {n}"),
     })
 }
 
@@ -562,8 +582,8 @@ fn op_cov(w: &[&str]) -> Option<String> {
     let a = tok::parse_prefix(w.get(1)?)?;
     let b = tok::parse_prefix(w.get(2)?)?;
     Some(match guarded(|| (BgpAnalyser::verif_covers(a, b), a.matching_or_less_specific(b))) {
-        None => "panic".into(),
-        Some((c, m)) => format!(
+        Err(loc) => format!("panic {loc}"),
+        Ok((c, m)) => format!(
             "cov={} mls={}",
             match c {
                 None => "x".to_string(),
@@ -579,19 +599,19 @@ fn op_incl(w: &[&str]) -> Option<String> {
     let a = tok::parse_payload(w.get(1)?)?;
     let b = tok::parse_payload(w.get(2)?)?;
     Some(match guarded(|| (a.includes(b), a.overlaps(b))) {
-        None => "panic".into(),
-        Some((i, o)) => format!("inc={} ovl={}", i as u8, o as u8),
+        Err(loc) => format!("panic {loc}"),
+        Ok((i, o)) => format!("inc={} ovl={}", i as u8, o as u8),
     })
 }
 
 /// `aggkey <hex of the UTF-8 string>`
 fn op_aggkey(w: &[&str]) -> Option<String> {
-    let bytes = hex::decode(w.get(1)?).ok()?;
+    let bytes = hex::decode(w.get(1)?.strip_prefix('x')?).ok()?;
     let s = String::from_utf8(bytes).ok()?;
     Some(match guarded(|| ca_pure::roa_aggregate_key_parse(&s)) {
-        None => "panic".into(),
-        Some(None) => "none".into(),
-        Some(Some((asn, grp))) => format!(
+        Err(loc) => format!("panic {loc}"),
+        Ok(None) => "none".into(),
+        Ok(Some((asn, grp))) => format!(
             "some {asn} {}",
             match grp {
                 None => "-".to_string(),
@@ -726,8 +746,8 @@ fn op_ana(w: &[&str]) -> Option<String> {
         (rep, sug)
     });
     Some(match out {
-        None => format!("{head} panic"),
-        Some((rep, sug)) => format!(
+        Err(loc) => format!("{head} panic {loc}"),
+        Ok((rep, sug)) => format!(
             "{head} ok E={} G={}",
             tok::sorted_list(rep.entries(), entry_tok, ";"),
             suggestion_tok(&sug)
@@ -740,9 +760,9 @@ fn op_msp(w: &[&str]) -> Option<String> {
     let data = tok::parse_list(tok::kv(w, "D")?, tok::parse_ann, ',')?;
     let q = tok::parse_prefix(tok::kv(w, "Q")?)?;
     Some(match guarded(|| load_analyser(Some(&data)).map(|a| a.verif_eq_or_more_specific(q))) {
-        None => "panic".into(),
-        Some(None) => "loaderr".into(),
-        Some(Some(v)) => tok::sorted_list(&v, tok::ann, ","),
+        Err(loc) => format!("panic {loc}"),
+        Ok(None) => "loaderr".into(),
+        Ok(Some(v)) => tok::sorted_list(&v, tok::ann, ","),
     })
 }
 
@@ -753,9 +773,9 @@ fn op_msp(w: &[&str]) -> Option<String> {
 /// that the token language can express, the delta (`A=… R=…`) for the model.
 fn op_dec(ctx: &Ctx, w: &[&str]) -> Option<String> {
     let kind = *w.get(1)?;
-    let bytes = hex::decode(w.get(2)?).ok()?;
+    let bytes = hex::decode(w.get(2)?.strip_prefix('x')?).ok()?;
     let res = ResourceSet::from_strs("AS64496-AS64500", "10.0.0.0/8", "2001:db8::/32").unwrap();
-    let r: Option<Result<String, ()>> = guarded(|| -> Result<String, ()> {
+    let r: Result<Result<String, ()>, String> = guarded(|| -> Result<String, ()> {
         match kind {
             "roa-updates" => {
                 let u: RoaConfigurationUpdates = serde_json::from_slice(&bytes).map_err(|_| ())?;
@@ -903,9 +923,9 @@ fn op_dec(ctx: &Ctx, w: &[&str]) -> Option<String> {
         }
     });
     Some(match r {
-        None => "panic".into(),
-        Some(Ok(extra)) => format!("ok{extra}"),
-        Some(Err(())) => "err".into(),
+        Err(loc) => format!("panic {loc}"),
+        Ok(Ok(extra)) => format!("ok{extra}"),
+        Ok(Err(())) => "err".into(),
     })
 }
 
